@@ -744,6 +744,36 @@ pub fn c15_cases(seed: u64, first_id: usize, n: usize) -> Vec<Case> {
 }
 
 // ---------------------------------------------------------------------------
+// items named like predefined types
+
+/// Multi-module programs in which one module defines items called `u8`, `bool`, `u64`… and at
+/// the same time uses the predefined types of those names in fields, padding, arrays,
+/// signatures, extern values and enum bases; a plain module uses the very same types; a third
+/// imports one of the shadowing items by name.
+pub fn shadow_programs(first_id: usize) -> Vec<Case> {
+    let mut out = vec![];
+    for ptrw in [8usize, 4] {
+        for order in 0..3usize {
+            let id = format!("k{}_", first_id + out.len());
+            let sh = format!(
+                "#[align(2)] pub type u8 {{ pub x: u16, }}\npub enum bool: u16 {{ No, Yes, }}\n#[size(16), align(8)] extern type u64;\n#[align(8)] pub type Uses {{ pub a: u32, pub b: u8, #[address(8)] pub c: u64, pub d: [u8; 4], pub e: bool, _: unknown<3>, }}\n#[align(8)] pub type Gap {{ pub a: u32, #[address(0x10)] pub b: u64, }}\nimpl Uses {{ #[address(0x1000)] pub fn f(&self, x: u8, y: *const u64) -> bool; }}\n#[address(0x6A00_7000)] pub extern g_byte: u8;\n#[address(0x6A00_7010)] pub extern g_bytes: [u8; 4];\n#[address(0x6A00_7020)] pub extern g_wide: *mut u64;\npub enum E: u8 {{ A = 1, B, }}\n#[singleton(0x6A00_7040)] pub type Solo {{ pub n: u64, }}\n"
+            );
+            let plain = "#[align(8)] pub type Plain { pub a: u32, pub b: u8, #[address(8)] pub c: u64, pub d: [u8; 4], pub e: bool, _: unknown<3>, }\nimpl Plain { #[address(0x1040)] pub fn f(&self, x: u8, y: *const u64) -> bool; }\n#[address(0x6A00_7100)] pub extern p_byte: u8;\n#[address(0x6A00_7110)] pub extern p_bytes: [u8; 4];\n".to_string();
+            let imp = format!("use {id}sh::u8;\n#[align(4)] pub type Imp {{ pub a: u8, _: unknown<6>, #[address(0x10)] pub c: u32, pub t: [u8; 2], }}\n#[align(4)] pub type ImpAddr {{ pub a: u8, #[address(8)] pub c: u32, }}\n");
+            let parse = |t: &str| pyxis::parser::parse_str(t).expect("shadow program parses");
+            let mut mods = vec![
+                (ItemPath::from(format!("{id}sh").as_str()), parse(&sh)),
+                (ItemPath::from(format!("{id}plain").as_str()), parse(&plain)),
+                (ItemPath::from(format!("{id}imp").as_str()), parse(&imp)),
+            ];
+            mods.rotate_left(order);
+            out.push((id, mods, ptrw));
+        }
+    }
+    out
+}
+
+// ---------------------------------------------------------------------------
 // negatives
 
 fn must_reject(ctx: &mut Ctx, prop: &str, kind: &str, mods: Vec<(ItemPath, Module)>, ptrw: usize) {
